@@ -52,6 +52,7 @@ struct ARec {
 ARec g_arec[128];
 int g_narec;
 int g_alloc_calls, g_dealloc_calls, g_construct_calls, g_destroy_calls;
+bool g_faults_armed;
 
 ARec* arec_find(void* p)
 {
@@ -70,6 +71,7 @@ struct CountingAlloc {
     }
     T* allocate(size_t n)
     {
+        if (g_faults_armed) mcrt::may_throw(hx::SITE_ALLOC);  // allocation failure (fault enumeration, C13)
         void* p = ::operator new(n * sizeof(T));
         if (g_narec >= 128) fail("INTERNAL", "allocation table full");
         g_arec[g_narec++] = ARec{p, 1, 0, (uint8_t)(sizeof(T) % 251)};
@@ -185,6 +187,7 @@ struct MutRec {
     uint64_t acq_seq;
     uint64_t inv, ret;
     bool noop;
+    bool maybe = false;  // failed with an injected allocation failure: may or may not have taken effect
 };
 struct TravRec {
     uint64_t inv, ret;
@@ -206,6 +209,7 @@ void ghost_reset()
     g_nhandles = g_nerased = g_nmuts = g_ntravs = 0;
     g_instances = 0;
     g_narec = 0;
+    g_faults_armed = false;
     g_alloc_calls = g_dealloc_calls = g_construct_calls = g_destroy_calls = 0;
 }
 
@@ -253,7 +257,7 @@ struct Interp {
     }
     void check_it(const char* when)
     {
-        if (!solo || !have_it) return;
+        if (!solo || !have_it || poisoned) return;
         if (expect < 0) {
             MC_CHECK(at_end(), "iterator-position", "%s: iterator should be at the end but is not", when);
         } else {
@@ -294,7 +298,7 @@ struct Interp {
 #endif
     }
 
-    void run(const Op& o)
+    void run_op(const Op& o)
     {
         switch (o.k) {
             case H_R:
@@ -360,7 +364,7 @@ struct Interp {
                 }
                 tr.ret = stamp();
                 expect = -1;
-                if (solo) {
+                if (solo && !poisoned) {
                     MC_CHECK(tr.n == (int)ref.size(), "traversal-contents", "traversal returned %d elements, reference has %zu",
                              tr.n, ref.size());
                     for (int i = 0; i < tr.n; i++)
@@ -384,6 +388,8 @@ struct Interp {
                 m.kind = ERASE_CUR;
                 m.value = v;
                 m.inv = stamp();
+                pending = m;
+                have_pending = true;
                 if (!already) g_erased[g_nerased++] = ErasedRec{addr, m.inv, v};
                 prev_it = it;
                 have_prev = true;
@@ -393,6 +399,7 @@ struct Interp {
                 m.ret = stamp();
                 m.noop = false;
                 g_muts[g_nmuts++] = m;
+                have_pending = false;
                 it = nx;
                 if (solo) {
                     int nxv = succ(v);
@@ -424,6 +431,8 @@ struct Interp {
                 m.kind = o.k;
                 m.value = o.arg;
                 m.inv = stamp();
+                pending = m;
+                have_pending = true;
                 if (o.k == PUSH_F) (*wh)->push_front(Elem(o.arg));
                 else if (o.k == PUSH_B) (*wh)->push_back(Elem(o.arg));
                 else if (o.k == EMPL_F) (*wh)->emplace_front(o.arg);
@@ -433,6 +442,7 @@ struct Interp {
                 m.ret = stamp();
                 m.noop = false;
                 g_muts[g_nmuts++] = m;
+                have_pending = false;
                 if (o.k == PUSH_F || o.k == EMPL_F) ref.insert(ref.begin(), o.arg);
                 else ref.push_back(o.arg);
                 break;
@@ -442,11 +452,67 @@ struct Interp {
         }
         check_protected("after operation");
     }
+
+    // re-derive the sequential reference from the list itself (after an operation failed with an
+    // injected allocation failure it may or may not have taken effect)
+    void resync()
+    {
+        if (!solo || !has_handle()) return;
+        ref.clear();
+        List::const_iterator i = rh ? (*rh)->begin() : (*wh)->begin();
+        int n = 0;
+        for (; !(i == List::end_iterator()); ++i) {
+            ref.push_back(i->v);
+            MC_CHECK(++n <= 12, "endless-traversal", "list is cyclic after a failed operation");
+        }
+        have_it = have_prev = false;
+    }
+
+    void run(const Op& o)
+    {
+        try {
+            run_op(o);
+        }
+        catch (const mcrt::Injected&) {
+            // an allocation failed inside the operation: it must leave the list usable and leak nothing
+            // (checked at the end); whether it took effect is read back from the list
+            observe(4242);
+            failed_ops++;
+            if (have_pending) {
+                pending.acq_seq = last_acquire_seq();
+                pending.ret = stamp();
+                pending.noop = false;
+                pending.maybe = true;
+                g_muts[g_nmuts++] = pending;
+                have_pending = false;
+            }
+            if (o.k == H_R || o.k == H_W) {
+                // the handle object exists, its registration failed: nothing to undo
+            }
+            try {
+                resync();
+            }
+            catch (const mcrt::Injected&) {
+                // the resynchronising traversal's own registration failed
+                have_it = have_prev = false;
+                rh.reset();
+                wh.reset();
+                if (hrec >= 0) g_handles[hrec].alive = false;
+                hrec = -1;
+                poisoned = true;
+            }
+        }
+    }
+    int failed_ops = 0;
+    MutRec pending;
+    bool have_pending = false;
+    bool poisoned = false;  // reference unknown: stop comparing
 };
 
 // reference: the effective mutations applied one at a time, in writer-lock acquisition order when
 // every one of them acquired the lock (the usual case), otherwise in ANY order that respects each
 // thread's own order (brute force) - the statement only asks for "some sequential execution".
+bool g_ref_ok;
 struct RefVerdict {
     bool ok;
     char msg[400];
@@ -528,12 +594,32 @@ static RefVerdict check_order(const Prog& p, const std::vector<MutRec>& ms, cons
     return v;
 }
 
+void reference_check_with(const Prog& p, const std::vector<int>& final_contents, std::vector<MutRec> ms, bool report);
 void reference_check(const Prog& p, const std::vector<int>& final_contents)
 {
-    // effective mutations only: erasing an already erased element is a no-op and needs no lock
-    std::vector<MutRec> ms;
-    for (int i = 0; i < g_nmuts; i++)
-        if (!g_muts[i].noop) ms.push_back(g_muts[i]);
+    // effective mutations only: erasing an already erased element is a no-op and needs no lock;
+    // a mutation that failed with an injected allocation failure may or may not have taken effect
+    std::vector<MutRec> sure, maybe;
+    for (int i = 0; i < g_nmuts; i++) {
+        if (g_muts[i].noop) continue;
+        (g_muts[i].maybe ? maybe : sure).push_back(g_muts[i]);
+    }
+    if (maybe.empty()) {
+        reference_check_with(p, final_contents, sure, true);
+        return;
+    }
+    g_ref_ok = false;
+    for (unsigned mask = 0; mask < (1u << maybe.size()) && !g_ref_ok; mask++) {
+        std::vector<MutRec> ms = sure;
+        for (size_t k = 0; k < maybe.size(); k++)
+            if (mask & (1u << k)) ms.push_back(maybe[k]);
+        reference_check_with(p, final_contents, ms, false);
+    }
+    if (!g_ref_ok) reference_check_with(p, final_contents, sure, true);
+}
+
+void reference_check_with(const Prog& p, const std::vector<int>& final_contents, std::vector<MutRec> ms, bool report)
+{
     // an erase of a value some other erase already removed (two writers, same element) is a no-op too
     {
         std::vector<MutRec> eff;
@@ -551,7 +637,10 @@ void reference_check(const Prog& p, const std::vector<int>& final_contents)
     for (size_t i = 1; i < ms.size(); i++)
         if (ms[i].acq_seq == ms[i - 1].acq_seq) distinct = false;
     RefVerdict v = check_order(p, ms, final_contents);
-    if (v.ok) return;
+    if (v.ok) {
+        g_ref_ok = true;
+        return;
+    }
     if (distinct && ms.size() > 0) {
         // lock order is the order: report
     } else {
@@ -569,9 +658,13 @@ void reference_check(const Prog& p, const std::vector<int>& final_contents)
             std::vector<MutRec> cand;
             for (int i : perm) cand.push_back(ms[i]);
             RefVerdict c = check_order(p, cand, final_contents);
-            if (c.ok) return;
+            if (c.ok) {
+                g_ref_ok = true;
+                return;
+            }
         } while (std::next_permutation(perm.begin(), perm.end()));
     }
+    if (!report) return;
     char* bar = strchr(v.msg, '|');
     *bar = 0;
     fail(v.msg, "%s", bar + 1);
@@ -586,6 +679,7 @@ void body(const Prog& p)
         auto h = rg->lock_write();
         for (int v = 1; v <= p.prefill; v++) h->push_back(Elem(v));
     }
+    g_faults_armed = true;
     {
         std::vector<int> ids;
         for (auto& tp : p.threads) {
@@ -601,6 +695,7 @@ void body(const Prog& p)
         }
         for (int id : ids) join(id);
     }
+    g_faults_armed = false;
     // final contents through a fresh read handle
     std::vector<int> fin;
     {
@@ -687,6 +782,11 @@ void make_items(const Options& o, std::vector<Item>& items)
         it.name = text(p);
         it.body = [p] { body(p); };
         it.bounds = hx::tier_bounds(o, Pq, Pt);
+#if defined(MODE_C13)
+        // every allocation made by a client operation may fail (one failure per run; thorough: two)
+        it.enumerate_faults = true;
+        it.fault_mask = 1u << hx::SITE_ALLOC;
+#endif
         items.push_back(it);
     };
 #if defined(MODE_C12)
